@@ -276,6 +276,7 @@ bool provider(const std::string &prop, const std::string &tier, const std::strin
     // scheduling point inside every callback; the other thread changes both keys in program order
     { Spec s; s.initial = {0}; s.threads = T{{S(0), S(1)}, {N(1)}}; add(suite, s, 3, flavour); }
     { Spec s; s.initial = {0, 1}; s.threads = T{{U(0), U(1)}, {N(1)}}; add(suite, s, 3, flavour); }
+    { Spec s; s.initial = {0, 1}; s.threads = T{{S(0), S(1)}, {N(1)}}; add(suite, s, 3, flavour); }      // both keys exist already: a subscribe that adds to an existing subject must still wait for the delivery
     { Spec s; s.initial = {0, 1}; s.threads = T{{U(0), H(2), E(0)}, {N(2)}}; add(suite, s, 3, flavour); }
     { Spec s; s.initial = {0, 0}; s.threads = T{{S(0), U(1)}, {N(0)}, {N(1)}}; add(suite, s, 2, flavour); }
     { Spec s; s.initial = {0}; s.dead = {1, 2}; s.threads = T{{H(2), S(1)}, {N(1), E(4)}, {D()}}; add(suite, s, 2, flavour); }
